@@ -2,8 +2,8 @@ CONSTANTS
   KINDS = {"cbccs1", "cbccs2", "cbccs3", "ecbcs1", "ecbcs2", "ecbcs3"}
   DIRS = {"enc", "dec"}
   BS = 2
-  WS = {2, 3}
-  MAXL = 7
+  WS = {1, 2, 3}
+  MAXL = 9
   FIXED = TRUE
   PROP = "C05"
 SPECIFICATION Spec
